@@ -13,6 +13,8 @@ type co2Case struct {
 	A         *coCase // shares B's discovery and explorer data
 	AListFail bool
 	B         *coCase
+	Warm      bool // observe the second of two cycles of the same Coordinator
+	BFirst    bool // replica order [B, A] instead of [A, B]
 }
 type co2Obs struct {
 	A      *coObs
@@ -32,7 +34,7 @@ func coord2Gen(r *rand.Rand, idx int, thorough bool) interface{} {
 	a.Active = b.Active
 	a.Explore = b.Explore
 	// A mostly holds the same targets (a different placement of them)
-	c := &co2Case{A: a, B: b, AListFail: r.Intn(6) == 0}
+	c := &co2Case{A: a, B: b, AListFail: r.Intn(6) == 0, Warm: r.Intn(2) == 0, BFirst: r.Intn(2) == 0}
 	if b.Opts.MaxProc == 0 {
 		b.Opts.MaxProc = 100
 		a.Opts = b.Opts
@@ -42,8 +44,15 @@ func coord2Gen(r *rand.Rand, idx int, thorough bool) interface{} {
 
 func coord2Run(in interface{}) (string, interface{}, map[string]int) {
 	c := in.(*co2Case)
-	alone := coordRunReplicas(c.B.Opts, []*coCase{c.B}, nil)[0]
-	both := coordRunReplicas(c.B.Opts, []*coCase{c.A, c.B}, []bool{c.AListFail, false})
+	alone := coordRunReplicasW(c.B.Opts, []*coCase{c.B}, nil, c.Warm)[0]
+	var both []coObs
+	if c.BFirst {
+		// discovery and explorer data are taken from the LAST case: A carries B's (coord2Gen copies them)
+		x := coordRunReplicasW(c.B.Opts, []*coCase{c.B, c.A}, []bool{false, c.AListFail}, c.Warm)
+		both = []coObs{x[1], x[0]}
+	} else {
+		both = coordRunReplicasW(c.B.Opts, []*coCase{c.A, c.B}, []bool{c.AListFail, false}, c.Warm)
+	}
 	obs := co2Obs{BAlone: alone, BWith: both[1]}
 	aTerm := "None"
 	if !c.AListFail {
@@ -53,6 +62,12 @@ func coord2Run(in interface{}) (string, interface{}, map[string]int) {
 	st := coStatsOf(c.B, alone)
 	if c.AListFail {
 		st["a_list_fails"] = 1
+	}
+	if c.Warm {
+		st["second_cycle_observed"] = 1
+	}
+	if c.BFirst {
+		st["b_listed_first"] = 1
 	}
 	if both[0].Panic != "" || alone.Panic != "" {
 		st["cases_panicked"] = 1
